@@ -373,10 +373,98 @@ impl Family for Corruptions {
     }
 }
 
+
+/// "... so that in the compiler a malformed generator reply becomes a diagnostic": every truncation and every
+/// single-byte substitution (by 0x00, 0x01, 0x7f, 0x80, 0xff, byte+1) of a valid reply with two files and two
+/// diagnostics is sent to the real slicec binary by a fake generator.  The reference decoder says whether a reply
+/// decodes; if it does not, slicec must end with an error diagnostic and a non-zero exit status (no crash, no
+/// hang, no silence); if it does (and nothing follows it), slicec must accept it.
+pub struct RepliesThroughTheCompiler {
+    base: Vec<u8>,
+}
+impl RepliesThroughTheCompiler {
+    pub fn new() -> Self {
+        use crate::proc::{encode_reply, rfile, RDiag};
+        let base = encode_reply(&[rfile("a.txt", "A\n"), rfile("sub-b.txt", "")], &[RDiag { level: 1, message: "w é".into(), source: Some("src".into()) }, RDiag { level: 2, message: "".into(), source: None }]);
+        RepliesThroughTheCompiler { base }
+    }
+    fn reply(&self, idx: u64) -> Vec<u8> {
+        let n = self.base.len() as u64;
+        if idx <= n {
+            return self.base[..idx as usize].to_vec(); // every truncation, the full reply last
+        }
+        let k = idx - n - 1;
+        let (pos, which) = ((k / 6) as usize, k % 6);
+        let mut v = self.base.clone();
+        v[pos] = match which {
+            0 => 0x00,
+            1 => 0x01,
+            2 => 0x7f,
+            3 => 0x80,
+            4 => 0xff,
+            _ => v[pos].wrapping_add(1),
+        };
+        v
+    }
+}
+impl Family for RepliesThroughTheCompiler {
+    fn name(&self) -> String {
+        format!("replies-through-the-compiler/every truncation and 6 substitutions at every byte of a valid {}-byte reply, sent to the real slicec binary", self.base.len())
+    }
+    fn len(&self) -> u64 {
+        self.base.len() as u64 * 7 + 1
+    }
+    fn hang_secs(&self) -> f64 {
+        120.0
+    }
+    fn describe(&self, idx: u64) -> Value {
+        json!({"reply_hex": crate::proc::hex(&self.reply(idx))})
+    }
+    fn run(&self, idx: u64) -> CaseOut {
+        use crate::proc::{decode_reply, run, Gen, Install, Node, Scenario, Script, Step};
+        let reply = self.reply(idx);
+        let mut out = CaseOut::new(hash_str(&format!("c11reply{idx}")));
+        out.validated = 1;
+        out.nontrivial = true;
+        let fam = "c11/reply-through-the-compiler";
+        let decoded = decode_reply(&reply);
+        let valid = matches!(&decoded, Some((_, _, used)) if *used == reply.len());
+        let trailing = matches!(&decoded, Some((_, _, used)) if *used < reply.len());
+        let mut sc = Scenario::default();
+        sc.tree.push(("a.slice".into(), Node::File(b"module M\nstruct S {}\n".to_vec())));
+        sc.tree.push(("out".into(), Node::Dir));
+        sc.gens.push(Gen { name: "g".into(), install: Install::Script(Script(vec![Step::ReadAll, Step::Stdout(reply.clone()), Step::Exit(0)])) });
+        sc.argv = vec!["a.slice".into(), "-G".into(), "{gen0}".into(), "-O".into(), "out".into(), "--disable-color".into()];
+        let o = run(&sc, std::time::Duration::from_secs(30));
+        let desc = || format!("reply {} ({})\nexit {:?} signal {:?}\nstderr {}", crate::proc::hex(&reply), if valid { "decodes" } else if trailing { "decodes with trailing bytes" } else { "does not decode" }, o.exit_code, o.signal, truncate(&o.stderr_text(), 500));
+        if o.timed_out || o.signal.is_some() || o.panic_location().is_some() {
+            out.violate(format!("{fam}/crash-or-hang"), desc());
+            return out;
+        }
+        let errors = o.error_lines().len();
+        out.class = format!("{}:exit{:?}", if valid { "valid" } else if trailing { "trailing" } else { "malformed" }, o.exit_code);
+        if trailing {
+            return out; // a valid reply followed by more bytes: the statement does not say (C18 SOFT-1)
+        }
+        if !valid && (o.exit_code == Some(0) || errors == 0) {
+            out.violate(format!("{fam}/malformed-reply-did-not-become-a-diagnostic"), desc());
+        }
+        if valid {
+            // a path made unusable by the substitution (NUL, '/') may legitimately fail to be written
+            let paths_plain = decoded.as_ref().map_or(false, |(f, _, _)| f.iter().all(|x| !x.path.is_empty() && x.path.chars().all(|c| c.is_ascii_alphanumeric() || c == '.' || c == '-')));
+            if paths_plain && (o.exit_code != Some(0) || errors > 0) {
+                out.violate(format!("{fam}/valid-reply-rejected"), desc());
+            }
+        }
+        out
+    }
+}
+
 pub fn families(tier: &str) -> Vec<Box<dyn Family>> {
     let quick = tier == "quick";
     vec![
         Box::new(AnnouncedSizes::new()),
+        Box::new(RepliesThroughTheCompiler::new()),
         Box::new(Corruptions::new(if quick { 12 } else { 24 })),
         Box::new(AllBytes { max_len: if quick { 2 } else { 3 } }),
     ]
